@@ -848,3 +848,116 @@ Section specs.
     (forall e, List.In e (q_basket_classes s id) <-> e ∈ basket_classes s /\ e.1 = id) /\ List.NoDup (q_basket_classes s id).
   Proof. split; [apply q_basket_classes_exact|apply q_basket_classes_nodup]. Qed.
 End specs.
+
+(* ------------------------------------------------------------------ *)
+(* x/data list queries                                                 *)
+(* ------------------------------------------------------------------ *)
+
+Lemma dscan_In {E : Type} (l : list E) f leb e : List.In e (dscan l f leb) <-> List.In e l /\ f e = true.
+Proof. unfold dscan. rewrite sort_by_In, filter_In. reflexivity. Qed.
+
+Lemma dscan_NoDup {E : Type} (l : list E) f leb : List.NoDup l -> List.NoDup (dscan l f leb).
+Proof. intro Hn. unfold dscan. apply sort_by_NoDup, NoDup_filter, Hn. Qed.
+
+(* a table with one row per primary key has no repeated row *)
+Lemma NoDup_of_keys {K V : Type} (l : list (K * V)) : List.NoDup (map fst l) -> List.NoDup l.
+Proof. apply NoDup_map_inv. Qed.
+
+Section data_exactness.
+  Variable ab : addr -> bytes.
+  Variable d : DataMsgs.dstate.
+
+  Theorem q_attestations_by_id_exact id e :
+    List.In e (q_attestations_by_id ab d id) <-> List.In e (DataMsgs.attestors d) /\ e.1.1 = id.
+  Proof. unfold q_attestations_by_id. rewrite dscan_In, bytes_eqb_eq. reflexivity. Qed.
+
+  Theorem q_attestations_by_attestor_exact a e :
+    List.In e (q_attestations_by_attestor d a) <-> List.In e (DataMsgs.attestors d) /\ e.1.2 = a.
+  Proof. unfold q_attestations_by_attestor. rewrite dscan_In, N.eqb_eq. reflexivity. Qed.
+
+  Theorem q_data_resolvers_by_id_exact id e :
+    List.In e (q_data_resolvers_by_id d id) <-> List.In e (DataMsgs.data_resolvers d) /\ e.1 = id.
+  Proof. unfold q_data_resolvers_by_id. rewrite dscan_In, bytes_eqb_eq. reflexivity. Qed.
+
+  (* the URL is matched as a whole string *)
+  Theorem q_resolvers_by_url_exact url e :
+    List.In e (q_resolvers_by_url d url) <-> List.In e (DataMsgs.resolvers d) /\ e.2.1 = url.
+  Proof. unfold q_resolvers_by_url. rewrite dscan_In, bytes_eqb_eq. reflexivity. Qed.
+
+  (* The hypotheses are fields of the data-state invariant Inv_data (Data/DataInv.v):
+     inv_att_keys, inv_dr_nodup, inv_res_keys, inv_id_iris. *)
+  Theorem q_attestations_by_id_spec id :
+    List.NoDup (map fst (DataMsgs.attestors d)) ->
+    exact_list (q_attestations_by_id ab d id) (fun e => List.In e (DataMsgs.attestors d) /\ e.1.1 = id).
+  Proof.
+    intro Hn. apply exact_list_intro; [apply q_attestations_by_id_exact|].
+    apply dscan_NoDup, NoDup_of_keys, Hn.
+  Qed.
+
+  Theorem q_attestations_by_attestor_spec a :
+    List.NoDup (map fst (DataMsgs.attestors d)) ->
+    exact_list (q_attestations_by_attestor d a) (fun e => List.In e (DataMsgs.attestors d) /\ e.1.2 = a).
+  Proof.
+    intro Hn. apply exact_list_intro; [apply q_attestations_by_attestor_exact|].
+    apply dscan_NoDup, NoDup_of_keys, Hn.
+  Qed.
+
+  Theorem q_data_resolvers_by_id_spec id :
+    List.NoDup (DataMsgs.data_resolvers d) ->
+    exact_list (q_data_resolvers_by_id d id) (fun e => List.In e (DataMsgs.data_resolvers d) /\ e.1 = id).
+  Proof.
+    intro Hn. apply exact_list_intro; [apply q_data_resolvers_by_id_exact|]. apply dscan_NoDup, Hn.
+  Qed.
+
+  Theorem q_resolvers_by_url_spec url :
+    List.NoDup (map fst (DataMsgs.resolvers d)) ->
+    exact_list (q_resolvers_by_url d url) (fun e => List.In e (DataMsgs.resolvers d) /\ e.2.1 = url).
+  Proof.
+    intro Hn. apply exact_list_intro; [apply q_resolvers_by_url_exact|].
+    apply dscan_NoDup, NoDup_of_keys, Hn.
+  Qed.
+
+  (* the IRI lookup behind the by-IRI and by-hash queries *)
+  Theorem data_id_by_iri_sound iri id : data_id_by_iri d iri = Some id -> List.In (id, iri) (DataMsgs.data_ids d).
+  Proof.
+    unfold data_id_by_iri. destruct (find _ _) as [[id' iri']|] eqn:E; [|discriminate].
+    cbn. intro H. inversion H; subst id'. apply find_some in E. destruct E as [E1 E2].
+    cbn in E2. apply bytes_eqb_eq in E2. subst iri'. exact E1.
+  Qed.
+
+  Theorem data_id_by_iri_complete iri id :
+    List.NoDup (map snd (DataMsgs.data_ids d)) -> List.In (id, iri) (DataMsgs.data_ids d) ->
+    data_id_by_iri d iri = Some id.
+  Proof.
+    intros Hn Hin. unfold data_id_by_iri.
+    destruct (find _ _) as [[id' iri']|] eqn:E.
+    - apply find_some in E. destruct E as [E1 E2]. cbn in E2. apply bytes_eqb_eq in E2. subst iri'. cbn.
+      f_equal. revert Hn Hin E1. generalize (DataMsgs.data_ids d). intro l.
+      induction l as [|[i r] l IH]; cbn; [tauto|].
+      intros Hn Hin E1. inversion Hn as [|? ? Hx Hl]; subst.
+      destruct Hin as [Hin|Hin], E1 as [E1|E1].
+      + congruence.
+      + inversion Hin; subst. exfalso. apply Hx. apply in_map_iff. exists (id', iri). auto.
+      + inversion E1; subst. exfalso. apply Hx. apply in_map_iff. exists (id, iri). auto.
+      + apply IH; assumption.
+    - exfalso. pose proof (find_none _ _ E _ Hin) as Hf. cbn in Hf. rewrite bytes_eqb_refl in Hf. discriminate.
+  Qed.
+
+  Theorem run_attestations_by_iri iri :
+    iri_ok iri = true ->
+    match data_id_by_iri d iri with
+    | Some id => run_data_query ab d (DQAttestationsByIRI iri) =
+                 QPaged (map (fun e : bytes * addr * ts => Some (RAttestation iri e.1.2 e.2)) (q_attestations_by_id ab d id))
+    | None => run_data_query ab d (DQAttestationsByIRI iri) = QErr ENotFound
+    end.
+  Proof. intro Hok. cbn. rewrite Hok. unfold attestations_of_iri. destruct (data_id_by_iri d iri); reflexivity. Qed.
+
+  Theorem q_resolver_stored id r :
+    run_data_query ab d (DQResolver id) = QOne r ->
+    exists v, DataMsgs.get_resolver id d = Some v /\ r = RResolver id v.1 v.2.
+  Proof.
+    cbn. destruct (id =? 0)%N; [discriminate|].
+    destruct (DataMsgs.get_resolver id d) as [v|]; [|discriminate].
+    intro H. inversion H; subst r. exists v. auto.
+  Qed.
+End data_exactness.
